@@ -24,6 +24,7 @@ def handleScope (j : Json) : Json :=
     | "drop_schema" => .dropSchema
     | "modify_schema" => .modifySchema (txt c "name")
     | "table" => .table (txt c "name")
+    | "object" => .object (txt c "name")
     | _ => .other)
   Json.mkObj [("ok", checkScope (parseQ j) (bool j "inplace") cs)]
 
